@@ -48,8 +48,8 @@ def _check_main(run, P):
     run.rule("C20.pad", "lines appended in the loop are padded, the final line is not; "
              "pad functions fill to width-1 and end with the marker", minimum=4)
     run.rule("C20.use", "Fortran: comment test and wrapping use the same stripped "
-             "text; Python: every emitted line is wrapped at the combined level",
-             minimum=2)
+             "text, only directive lines have their '#' moved; Python: every emitted line "
+             "is wrapped at the combined level", minimum=3)
     f = P.func(f"{UTILS}.wrap_line_base")
     _lexer(run, P, f)
     _once_fit_pad(run, P, f)
@@ -420,6 +420,21 @@ def _use(run, P):
            why="an indented comment that is tested on the unstripped line is wrapped "
                "like code: its continuation lines lack the '!' and the module does "
                "not compile")
+    # preprocessor lines: only a line that *starts* with '#' has it moved to column one
+    from .util import path_conditions
+    call = P.func("dagrt.codegen.fortran.CodeGenerator.__call__")
+    moves = [s_ for s_ in ast.walk(call.node) if isinstance(s_, ast.Assign)
+             and isinstance(s_.value, ast.BinOp) and ast.unparse(s_.value).startswith("'#' + ")]
+    ok = bool(moves)
+    for mv in moves:
+        v = dotted(mv.targets[0])
+        pc = path_conditions(call.node, mv)
+        ok = ok and (f"{v}.lstrip().startswith('#')", True) in pc
+    run.ob("C20.use", call, moves[0] if moves else call.node, ok,
+           construct="'#' is moved to column one only under <line>.lstrip().startswith('#')",
+           why="moved out of any line that contains one, a '#' inside a character constant "
+               "(or on a continuation line) is cut out of its token: the emitted tokens "
+               "change and gfortran meets a malformed directive")
     g = P.func("dagrt.codegen.python.CodeGenerator._emit")
     from .util import first, has
     lv = first("V_l = self._class_emitter.level + self._emitter.level", g.node)
